@@ -477,6 +477,7 @@ def lin_lits(rng, ctx):
 
 
 HINTS = {
+    ("GraphPigeonholePrinciple", "G"): lambda rng, ctx: _gen_bip(rng),
     ("RelativizedPigeonholePrinciple", "pigeons"): lambda rng, ctx: rng.choice([0, 1, 2, 3, 4, -1]),
     ("RelativizedPigeonholePrinciple", "resting_places"): lambda rng, ctx: rng.choice([0, 1, 2, 3, 4, -1]),
     ("RelativizedPigeonholePrinciple", "holes"): lambda rng, ctx: rng.choice([0, 1, 2, 3, -1]),
